@@ -19,6 +19,7 @@ fn wanted(v: &Violation, prop: &str) -> bool {
 
 fn main() {
     install_panic_hook();
+    mmv::monitor::install_progress_guard();
     let args = Args::parse();
     let prop = args.str("prop", "all");
     let known = args.list("known");
@@ -38,7 +39,7 @@ fn main() {
             }
         }
         let h = History::parse(&text).expect("cannot parse replay file");
-        let opts = RunOpts { known: known.clone(), stop_at_first: false, drop_at: args.get("drop-at").and_then(|s| s.parse().ok()), light: false };
+        let opts = RunOpts { known: known.clone(), stop_at_first: false, drop_at: args.get("drop-at").and_then(|s| s.parse().ok()), light: false, prop: prop.clone() };
         let (res, known_hits) = run_history(&h, opts);
         let mut bad = 0;
         for v in &res.violations {
@@ -76,7 +77,7 @@ fn main() {
         let cfg = gen_config(&mut rng, profile);
         let nops = rng.range(max_ops / 2, max_ops) as usize;
         let drop_at = if drop_prob > 0 && rng.below(100) < drop_prob { Some(rng.below(nops as u64) as usize) } else { None };
-        let opts = RunOpts { known: known.clone(), stop_at_first: true, drop_at, light };
+        let opts = RunOpts { known: known.clone(), stop_at_first: true, drop_at, light, prop: prop.clone() };
         let mut d = Driver::new(&cfg, opts);
         let mut gen = Gen::new(rng.fork(), profile);
         let mut ops: Vec<Op> = Vec::with_capacity(nops);
@@ -116,7 +117,7 @@ fn main() {
                     let target = if prop == "all" { v.props[0].to_string() } else { prop.clone() };
                     let small = if drop_at.is_some() { h.clone() } else { shrink(&h, &target, &v.sig, &known, 400) };
                     // re-run the shrunk history to report its own detail
-                    let (r2, _) = run_history(&small, RunOpts { known: known.clone(), stop_at_first: true, drop_at: None, light: false });
+                    let (r2, _) = run_history(&small, RunOpts { known: known.clone(), stop_at_first: true, drop_at: None, light: false, prop: target.clone() });
                     let v2 = r2.violations.iter().find(|x| x.sig == v.sig).cloned().unwrap_or_else(|| v.clone());
                     let mut j = Report::violation_json(&v2, &small.to_text(), h.ops.len());
                     if let Some(da) = drop_at {
